@@ -28,6 +28,7 @@ Record subapi_case := {
   sa_probes : list api_probe;                 (* dereferences of listed ids and of unknown pairs *)
   sa_last : str; sa_etag : str; sa_body_last : str;   (* transport's last event id; ETag header; lastEventID field *)
   sa_inm_status : N;                          (* status with If-None-Match = last event id *)
+  sa_inm_other : list (str * N);              (* (another If-None-Match value, status): stale validators *)
   sa_tbl : tm_table;
   sa_auth : list (option (list str) * str * N) }.   (* caller's subscribe claim (None = no token), URL, status *)
 
@@ -41,6 +42,7 @@ Definition subapi_ok (c : subapi_case) : bool :=
     then N.eqb (ap_status p) 200 && str_eqb (ap_doc_id p) (sub_url (ap_sel p) (ap_sid p))
     else N.eqb (ap_status p) 404) (sa_probes c) &&
   str_eqb (sa_etag c) (sa_last c) && str_eqb (sa_body_last c) (sa_last c) && N.eqb (sa_inm_status c) 304 &&
+  forallb (fun p => N.eqb (snd p) (if str_eqb (fst p) (sa_last c) then 304 else 200)) (sa_inm_other c) &&
   forallb (fun a =>
     let '(claim, u, st) := a in
     let allowed := match claim with Some sels => can_receive (tmatch_of (sa_tbl c)) [u] sels | None => false end in
@@ -51,4 +53,5 @@ Definition subapi_agree (c : subapi_case) : bool :=
   forallb (fun d => match route_sub_url (doc_id d) with
                     | Some (sel, sid) => str_eqb sel (fst d) && str_eqb sid (snd d)
                     | None => false end) (listing (sa_subs c) None) &&
-  N.eqb (api_status (sa_last c) (sa_last c)) (sa_inm_status c).
+  N.eqb (api_status (sa_last c) (sa_last c)) (sa_inm_status c) &&
+  forallb (fun p => N.eqb (api_status (sa_last c) (fst p)) (snd p)) (sa_inm_other c).
